@@ -866,8 +866,41 @@ func isElementOfField(v ssa.Value, field string) bool {
 	if !ok {
 		return false
 	}
-	_, f, ok := fieldLoad(strip(ia.X))
-	return ok && f.Name() == field
+	return isFieldOrBoundToField(strip(ia.X), field, 0)
+}
+
+// isFieldOrBoundToField: x is a load of the named field, or a parameter of an unexported function that every static
+// call site binds to such a load (the list handed to a helper that was a method before).
+func isFieldOrBoundToField(x ssa.Value, field string, depth int) bool {
+	if _, f, ok := fieldLoad(x); ok {
+		return f.Name() == field
+	}
+	prm, ok := x.(*ssa.Parameter)
+	if !ok || depth > 2 || curProgram == nil || prm.Parent() == nil {
+		return false
+	}
+	fn := prm.Parent()
+	if fn.Object() == nil || fn.Object().Exported() || curProgram.addressTakenCached()[fn] {
+		return false
+	}
+	k := -1
+	for i, q := range fn.Params {
+		if q == prm {
+			k = i
+		}
+	}
+	n := 0
+	for _, e := range curProgram.callGraph().In[fn] {
+		cc := callCommon(e.Site)
+		if cc == nil || cc.StaticCallee() != fn || k < 0 || k >= len(cc.Args) {
+			return false
+		}
+		if !isFieldOrBoundToField(strip(cc.Args[k]), field, depth+1) {
+			return false
+		}
+		n++
+	}
+	return n > 0
 }
 
 // ---------------------------------------------------------------------------
